@@ -1,8 +1,61 @@
-(* Properties_C46.v — C46: proxy authentication gates forwarding and never mixes identities. Statements only. *)
+(* Properties_C46.v — C46: proxy authentication gates forwarding and never mixes identities. Statements only; proofs
+   in AuthhelperProofs.v. The Basic-scheme state machine (`astep`: arrivals, helper replies, clock ticks; user cache
+   keyed by user name, shared user object, pending-lookup queue, HandleReply writing the verdict to the shared
+   object) is in AuthhelperModel.v. `good u p` is the helper's verdict on the line "u p"; `creds cfg hdr` is what
+   decodeCleartext/decode make of a Proxy-Authorization value (None: no header / other scheme / invalid base64 /
+   NUL, CR, LF / no colon / empty password); an entry (rid, Some u) of `a_out` means request rid was authorised
+   (forwarded and logged) as user u, (rid, None) means it was answered 407. *)
 Require Import SquidV.Bytes SquidV.AuthhelperModel SquidV.AuthhelperProofs.
 Local Open Scope N_scope.
 
-Theorem C46_no_header_challenged : forall good cfg st rid,
-  a_out (astep good cfg st (Arrive rid None)) = a_out st ++ [(rid, None)].
-Proof. exact arrive_no_header_denied. Qed.
-Print Assumptions C46_no_header_challenged.
+(* no credentials => 407 at once: nothing is cached, no helper is asked *)
+Theorem C46_no_credentials_challenged : forall good cfg st rid hdr,
+  creds cfg hdr = None ->
+  astep good cfg st (Arrive rid hdr) = mkA (a_users st) (a_lookups st) (a_out st ++ [(rid, None)]) (a_now st).
+Proof. exact no_credentials_challenged. Qed.
+Print Assumptions C46_no_credentials_challenged.
+
+(* ... and over ALL event sequences such a request is never authorised later *)
+Theorem C46_no_credentials_never_forwarded : forall good cfg evs rid,
+  (forall hdr, In (Arrive rid hdr) evs -> creds cfg hdr = None) ->
+  forall u, ~ In (rid, Some u) (a_out (arun good cfg a_init evs)).
+Proof. exact no_credentials_never_forwarded. Qed.
+Print Assumptions C46_no_credentials_never_forwarded.
+
+(* SEQUENTIAL histories (every lookup answered before the next request arrives; ticks between the rounds): whoever
+   is authorised presented credentials of its own that the helper accepts - across cache hits, password changes,
+   failed attempts and TTL expiry *)
+Theorem C46_rejected_never_forwarded_sequential : forall good cfg, (0 < c_ttl cfg)%Z ->
+  forall evs rid u, seq_evs evs -> In (rid, Some u) (a_out (arun good cfg a_init evs)) ->
+  exists hdr p, In (Arrive rid hdr) evs /\ creds cfg hdr = Some (u, p) /\ good u p = true.
+Proof. exact sequential_rejected_never_forwarded. Qed.
+Print Assumptions C46_rejected_never_forwarded_sequential.
+
+(* ALL interleavings, what remains true (partial): the identity is never mixed across user NAMES - a request is
+   authorised only under the user name of its own credentials, and only if the helper accepted some password that
+   was presented for that very name. Missing for the full statement: "its own password" (refuted below). *)
+Theorem C46_authorised_only_under_own_name_partial : forall good cfg evs rid u,
+  In (rid, Some u) (a_out (arun good cfg a_init evs)) ->
+  (exists hdr p, In (Arrive rid hdr) evs /\ creds cfg hdr = Some (u, p)) /\
+  (exists rid' hdr' p', In (Arrive rid' hdr') evs /\ creds cfg hdr' = Some (u, p') /\ good u p' = true).
+Proof. exact authorised_under_own_name. Qed.
+Print Assumptions C46_authorised_only_under_own_name_partial.
+
+(* REFUTED at full strength: request 1 alice:ok (lookup pending), request 2 alice:no (replaces the cached password,
+   own lookup), the helper answers request 1's lookup OK, request 3 alice:no is authorised as alice although the
+   helper rejects alice:no (and says so when it answers request 2's lookup). Known finding C46-shared-user-race
+   (DESIGN F13), replayed against the running proxy by the check. *)
+Theorem C46_authorised_only_by_own_credentials_refuted :
+  creds cfg_w (Some hdr_alice_no) = Some (b_alice, [110; 111]) /\ good_ok b_alice [110; 111] = false /\
+  a_out (arun good_ok cfg_w a_init race_events) = [(1, Some b_alice); (3, Some b_alice); (2, None)].
+Proof. exact race_witness. Qed.
+Print Assumptions C46_authorised_only_by_own_credentials_refuted.
+
+(* the hypotheses are satisfiable: a sequential history with a cache fill, a tick, a rejected password and a
+   request without header *)
+Example C46_sequential_example :
+  seq_evs [Arrive 1 (Some hdr_alice_ok); Reply 1; Tick 10; Arrive 2 (Some hdr_alice_no); Reply 2; Arrive 3 None; Reply 3] /\
+  a_out (arun good_ok cfg_w a_init
+           [Arrive 1 (Some hdr_alice_ok); Reply 1; Tick 10; Arrive 2 (Some hdr_alice_no); Reply 2; Arrive 3 None; Reply 3])
+  = [(1, Some b_alice); (2, None); (3, None)].
+Proof. exact seq_example. Qed.
